@@ -3,13 +3,23 @@ import asyncio
 import shutil
 import tempfile
 
+import os
+
 _loop = None
+_loop_pid = None
+_inherited = []   # loops created before a fork are kept alive (never closed, never used) in the child
 
 
 def get_loop():
-    global _loop
+    global _loop, _loop_pid
+    if _loop is not None and _loop_pid != os.getpid():
+        # forked child: the inherited loop's executor threads do not exist here, and closing it would remove the
+        # parent's wake-up pipe from the shared epoll instance
+        _inherited.append(_loop)
+        _loop = None
     if _loop is None or _loop.is_closed():
         _loop = asyncio.new_event_loop()
+        _loop_pid = os.getpid()
         asyncio.set_event_loop(_loop)
     return _loop
 
